@@ -32,6 +32,7 @@ def run(ctx):
                   'handed back to the Loop with them as the caller)', minimum=20)
     rmv = ctx.rule('R-MOVEOUT.site', 'the strategies take input values through Retire(); no move-out of a possibly '
                    'shared input core', minimum=0)
+    rix = ctx.rule('R-INDEX', 'ordered static combinators: input number I registers the callback carrying index I', minimum=6)
     rout = ctx.rule('R-OUTCOME', 'every Promise::Set of a strategy hands on an accessor of the consumed Result or the '
                     'collected values', minimum=6)
     rpf = ctx.rule('R-POLICYFWD', 'a function instantiated with a FailPolicy hands the same policy to every callee that '
@@ -50,5 +51,7 @@ def run(ctx):
         ctx.guard(lambda: lib_when.check_sibling(ctx, fb, rsb))
         ctx.guard(lambda: lib_when.check_count(ctx, fb, rcn))
         ctx.guard(lambda: lib_when.check_outcome(ctx, fb, rout, STRATS))
+        if (ctx.guard(lambda: lib_when.check_callback_index(ctx, fb, rix)) or 0) < 6:
+            ctx.guard(lambda: ctx.broken('R-INDEX: no ordered StaticCombinator instantiation with a repeated input type'))
         lib_order.check(ctx, fb, cfg, ['yaclib::when::All::_done', 'yaclib::when::AllTuple::_done',
                                        'yaclib::when::Join::_done'], rw, ro, rc)
